@@ -545,6 +545,23 @@ impl Module for M {
                     let pos = (rng.range(-300, 300) as i32, rng.range(-300, 300) as i32);
                     emit(format!("text.layout {}", layout_tokens(&font, rng.below(4), rng.below(3), lh, col, pos, &s)));
                 }
+                if pid == "C02" {
+                    // C02: a slice of the measure ops (every third font / string pair): the pixels `draw_string` writes
+                    // lie inside the box `measure_string` reports (class C02:line-pixel-outside-measured-box, which no op
+                    // of the C02 check evaluated before: text.measure was generated for C15 only)
+                    let mut k = 0usize;
+                    for font in &fonts {
+                        for s in &strings {
+                            k += 1;
+                            if k % 3 != 0 {
+                                continue;
+                            }
+                            let col = COLOURS[k % COLOURS.len()];
+                            let pos = POSITIONS[k % 2];
+                            emit(format!("text.measure {} {} {} {} {} {} {} {} {}", font, k % 4, col.0, col.1, col.2, col.3, pos.0, pos.1, cps_of(s)));
+                        }
+                    }
+                }
                 if pid == "C15" {
                     // a moved `Text` keeps its layout (alignment, baseline, line height): `translate` changes the
                     // position only (C07's stream, a slice of it here: seeded change C15-r3-1 rebuilt the moved text
@@ -686,6 +703,22 @@ impl Module for M {
                                     }
                                     ctx.expect(r.rec.map == want, "C07:text-picture-not-shifted-on-bounded-target", || format!("box {}: {} vs {} pixels", fmt_rect(&b), r.rec.map.len(), want.len()));
                                     ctx.expect(bn == n + d, "C07:text-return-not-shifted-on-bounded-target", || format!("box {}: {:?} vs {:?} + {:?}", fmt_rect(&b), bn, n, d));
+                                    // the same box on a draw_iter-only target
+                                    let mut r = R1::<Rgb565>::new(b);
+                                    let bn = moved.draw(&mut r).expect("recording target does not fail");
+                                    ctx.expect(r.rec.map == want, "C07:text-picture-not-shifted-on-bounded-target", || format!("draw_iter-only box {}: {} vs {} pixels", fmt_rect(&b), r.rec.map.len(), want.len()));
+                                    ctx.expect(bn == n + d, "C07:text-return-not-shifted-on-bounded-target", || format!("draw_iter-only box {}: {:?} vs {:?} + {:?}", fmt_rect(&b), bn, n, d));
+                                }
+                                // degenerate boxes (empty, flat, disjoint), both kinds of target: nothing is drawn, the returned
+                                // position is unchanged
+                                for (name, b) in degenerate_boxes(&mbb) {
+                                    let want = restrict_map(&shift_map(&m, d), &b);
+                                    let (mut d1, mut d2) = (R1::<Rgb565>::new(b), R2::<Rgb565>::new(b));
+                                    let n1 = moved.draw(&mut d1).expect("recording target does not fail");
+                                    let n2 = moved.draw(&mut d2).expect("recording target does not fail");
+                                    ctx.count("tr:degenerate-bounded-target");
+                                    ctx.expect(d1.rec.map == want && d2.rec.map == want, "C07:text-picture-not-shifted-on-bounded-target", || format!("{} box {}: {} / {} vs {} pixels", name, fmt_rect(&b), d1.rec.map.len(), d2.rec.map.len(), want.len()));
+                                    ctx.expect(n1 == n + d && n2 == n + d, "C07:text-return-not-shifted-on-bounded-target", || format!("{} box {}: {:?} / {:?} vs {:?} + {:?}", name, fmt_rect(&b), n1, n2, n, d));
                                 }
                             }
                             ctx.expect(mbb == bb.translate(d), "C07:text-box-not-shifted", || format!("{} vs {} moved", fmt_rect(&mbb), fmt_rect(&bb)));
